@@ -82,6 +82,7 @@ void runOne(NifFile& nif, uint64_t seed, size_t steps, const std::string& caseJs
 	ContentIds ids;
 	JArr ops;
 	for (size_t s = 0; s < steps; s++) {
+		markPhase(2);
 		if (r() % 2) {
 			std::string act = randomGraphOp(nif, r);
 			applyGraphOp(nif, jparse(act));
@@ -94,12 +95,15 @@ void runOne(NifFile& nif, uint64_t seed, size_t steps, const std::string& caseJs
 			ops.add(what);
 		}
 		if (s % 2 == 1 || s + 1 == steps) {
+			markPhase(3); // from here on: saving and reading back what was written (a crash is no longer an odd edit's)
 			std::string raw = saveToString(nif, false, false);
 			fileEvent(out, caseJson, "raw", nif, raw, ids, ops.done());
 		}
 	}
+	markPhase(3);
 	std::string def = saveToString(nif, true, true);
 	fileEvent(out, caseJson, "default", nif, def, ids, ops.done());
+	markPhase(2);
 }
 
 int cmdEdits(int argc, char** argv) {
@@ -190,8 +194,10 @@ int cmdEdits(int argc, char** argv) {
 			}
 		},
 		[&](size_t k, const std::string& why, FILE* out) {
-			// crashes of edit operations on odd models are not C07's concern (C09/C12/C14/C15 own them): recorded as discards
-			fprintf(out, "{\"e\":\"discard\",\"case\":%s,\"why\":%s,\"phase\":%d}\n", caseOf(k).c_str(), J::str(why).s.c_str(), lastCrashPhase());
+			// crashes of edit operations on odd models are not C07's concern (C09/C12/C14/C15 own them): recorded as discards;
+			// a crash while saving a sample file's model or reading the written tables back is
+			bool saving = lastCrashPhase() == 3 && !cases[k].file.empty();
+			fprintf(out, "{\"e\":\"%s\",\"case\":%s,\"why\":%s,\"phase\":%d}\n", saving ? "crash" : "discard", caseOf(k).c_str(), J::str(why).s.c_str(), lastCrashPhase());
 		},
 		4096);
 	printf("{\"cases\":%zu,\"crashes\":%zu}\n", cases.size(), crashes);
